@@ -17,7 +17,19 @@ use std::fs::File;
 use std::io::{BufRead, BufReader, BufWriter};
 
 fn main() {
-    std::panic::set_hook(Box::new(|_| {}));
+    // panics of the library are data (caught in runner.rs) and stay silent; a panic located in the harness's own
+    // files is a defect of the harness and is reported, so that the wrapper's tool error says where
+    std::panic::set_hook(Box::new(|info| {
+        if let Some(l) = info.location() {
+            let f = l.file();
+            if ["main.rs", "runner.rs", "rng.rs", "drivers.rs", "drivers_enc.rs", "drivers_rx.rs", "drivers_misc.rs"]
+                .iter()
+                .any(|h| f.ends_with(h) && !f.contains("repo"))
+            {
+                eprintln!("harness panic at {}:{}: {}", f, l.line(), info);
+            }
+        }
+    }));
     let args: Vec<String> = std::env::args().collect();
     if args.len() < 2 {
         eprintln!("usage: harness run <scenario> <trace> | drive <family> <tier> <seed> <trace>");
